@@ -58,17 +58,103 @@ class Kernel:
 class KTr:
     """translator of one kernel"""
 
-    def __init__(self, fns, kernels, consts, fd, self_attrs=False, complex_arrays=(), dims2=()):
+    def __init__(self, fns, kernels, consts, fd, self_attrs=False, complex_arrays=(), dims2=(), complex_scalars=()):
         self.fns, self.kernels, self.consts = fns, kernels, consts
         self.self_attrs = self_attrs
         self.complex_arrays = set(complex_arrays)
         self.dims2 = set(dims2)          # names of 2-d (C-contiguous) array parameters
+        self.complex_scalars = set(complex_scalars)
         self.shape_params = []           # extra Int parameters  <arr>_shape<k>
         self.uses_cpowi = False          # the kernel uses complex ** int (library operation: a parameter `cpowi`)
         self.uses_imsqrt = False         # the kernel uses np.sqrt(complex).imag (library operation: a parameter `imsqrt`)
         self.uses_fuel = False           # the kernel has a `while` loop (translated with a fuel parameter)
         self.join_kinds = {}             # locals whose assignments have different kinds: the join (int < float < complex)
         self.fd = self.eliminate_views(fd)
+
+    # ------------------------------------------------------------------ whole-column statements -> explicit row loops
+    def devectorise(self, fd):
+        """numpy statements that act on all rows at once — `A[:, j] = …`, `A[:, j] op= …`, `T[:] = …`, `T op= …` with `T` a 1-d
+        scratch array made by `np.zeros(A.shape[:-1], …)` — are elementwise in the row index and never read another row, so
+        each is the loop `for r in range(nrows): <the same statement for row r>` (`X[:, j]` -> `X[r, j]`, `T` -> `T[r]`).
+        The scratch arrays become array parameters (zero-filled at the point of the `np.zeros` call)."""
+        import copy
+        rows_of = {}       # scratch name -> source array name
+        outer = self
+        ROW = "r__"
+
+        def is_zeros(v):
+            return isinstance(v, ast.Call) and ast.unparse(v.func) == "np.zeros" and v.args and ast.unparse(v.args[0]).endswith(".shape[:-1]")
+
+        def colslice(t):
+            return isinstance(t, ast.Subscript) and isinstance(t.slice, ast.Tuple) and len(t.slice.elts) == 2 \
+                and isinstance(t.slice.elts[0], ast.Slice) and t.slice.elts[0].lower is None and t.slice.elts[0].upper is None
+
+        def fullslice(t):
+            return isinstance(t, ast.Subscript) and isinstance(t.slice, ast.Slice) and t.slice.lower is None and t.slice.upper is None \
+                and isinstance(t.value, ast.Name) and t.value.id in rows_of
+
+        class Row(ast.NodeTransformer):
+            def visit_Subscript(s2, n):
+                if colslice(n):
+                    return ast.copy_location(ast.Subscript(value=n.value, slice=ast.Tuple(elts=[ast.Name(id=ROW, ctx=ast.Load()), s2.visit(n.slice.elts[1])], ctx=ast.Load()), ctx=n.ctx), n)
+                if fullslice(n):
+                    return ast.copy_location(ast.Subscript(value=n.value, slice=ast.Name(id=ROW, ctx=ast.Load()), ctx=n.ctx), n)
+                return s2.generic_visit(n)
+
+            def visit_Name(s2, n):
+                if n.id in rows_of:
+                    return ast.copy_location(ast.Subscript(value=ast.Name(id=n.id, ctx=ast.Load()), slice=ast.Name(id=ROW, ctx=ast.Load()), ctx=n.ctx), n)
+                return n
+
+        def nrows_name(arr):
+            n = f"{arr}_shape0"
+            if lean_ident(n) not in outer.shape_params:
+                outer.shape_params.append(lean_ident(n))
+            return n
+
+        def rowloop(stmt, arr):
+            return ast.For(target=ast.Name(id=ROW, ctx=ast.Store()),
+                           iter=ast.Call(func=ast.Name(id="range", ctx=ast.Load()), args=[ast.Name(id=nrows_name(arr), ctx=ast.Load())], keywords=[]),
+                           body=[stmt], orelse=[])
+
+        def src_array(stmt):
+            for n in ast.walk(stmt):
+                if colslice(n) and isinstance(n.value, ast.Name):
+                    return n.value.id
+            for n in ast.walk(stmt):
+                if isinstance(n, ast.Name) and n.id in rows_of:
+                    return rows_of[n.id]
+            return None
+
+        def block(stmts):
+            out = []
+            for st in stmts:
+                if isinstance(st, ast.Assign) and len(st.targets) == 1 and isinstance(st.targets[0], ast.Name) and is_zeros(st.value):
+                    src = ast.unparse(st.value.args[0])[:-len(".shape[:-1]")]
+                    t = st.targets[0].id
+                    rows_of[t] = src
+                    outer.scratch.append(lean_ident(t))
+                    z = ast.Assign(targets=[ast.Subscript(value=ast.Name(id=t, ctx=ast.Load()), slice=ast.Name(id=ROW, ctx=ast.Load()), ctx=ast.Store())],
+                                   value=ast.Constant(value=0.0))
+                    out.append(rowloop(z, src))
+                    continue
+                if isinstance(st, (ast.Assign, ast.AugAssign)):
+                    tgt = st.targets[0] if isinstance(st, ast.Assign) else st.target
+                    if colslice(tgt) or fullslice(tgt) or (isinstance(tgt, ast.Name) and tgt.id in rows_of):
+                        arr = src_array(st)
+                        new = Row().visit(copy.deepcopy(st))
+                        out.append(rowloop(new, arr))
+                        continue
+                if isinstance(st, ast.For):
+                    st.body = block(st.body)
+                elif isinstance(st, ast.If):
+                    st.body = block(st.body)
+                    st.orelse = block(st.orelse)
+                out.append(st)
+            return out
+        self.scratch = []
+        fd.body = block(fd.body)
+        return ast.fix_missing_locations(fd)
 
     # ------------------------------------------------------------------ numpy views -> direct accesses
     def eliminate_views(self, fd):
@@ -100,6 +186,7 @@ class KTr:
                     return ast.copy_location(ast.Name(id=n, ctx=ast.Load()), node)
                 return node
         fd = Sh().visit(fd)
+        fd = self.devectorise(fd)
 
         def rewrite_expr(node, al):
             class R(ast.NodeTransformer):
@@ -171,7 +258,7 @@ class KTr:
 
     def infer_params(self):
         fd = self.fd
-        params = [lean_ident(a.arg) for a in fd.args.args if a.arg != "self"]
+        params = [lean_ident(a.arg) for a in fd.args.args if a.arg != "self"] + list(getattr(self, "scratch", []))
         sub, stored, aliased, cx = set(), set(), set(), set()
         alias_of = {}
         for n in ast.walk(fd):
@@ -204,7 +291,7 @@ class KTr:
         for p in self.shape_params:
             kinds[p] = INT
         for p in params:
-            if p in cx:
+            if p in cx or p in self.complex_scalars:
                 kinds[p] = CX
             elif p in arrs and p in self.complex_arrays:
                 kinds[p] = CARR if (p in stored or p in aliased) else CTAB
@@ -989,6 +1076,20 @@ def generate_hornerkern(fns, gen_dir, write_if_changed):
     out.append(txt)
     out.append("end\nend Gen\n")
     write_if_changed(os.path.join(gen_dir, "HornerKern.lean"), "\n".join(out))
+    return {k.name: [(p, k.kinds[p]) for p in k.params]}
+
+
+def generate_rothkern(fns, gen_dir, write_if_changed):
+    wpath = "spherical/wigner.py"
+    wtree = ast.parse(open(os.path.join(REPO, wpath), encoding="utf-8").read())
+    out = [FILL_HEADER.format(src="spherical/wigner.py (_rotate_Horner)").replace(
+        "The kernels that turn the H wedge into results", "The Horner rotation kernel (whole-column numpy statements as explicit row loops)")]
+    fd = find_function(wtree, "_rotate_Horner")
+    k, txt = KTr(fns, {}, set(), fd, complex_arrays={"flm", "fln", "negative_terms", "positive_terms"}, dims2={"flm", "fln"},
+                 complex_scalars={"za", "zγ"}).translate()
+    out.append(txt)
+    out.append("end\nend Gen\n")
+    write_if_changed(os.path.join(gen_dir, "RotHKern.lean"), "\n".join(out))
     return {k.name: [(p, k.kinds[p]) for p in k.params]}
 
 
